@@ -49,3 +49,15 @@ add('C16',
     min_counters={'alloc_blocks': 10000},
     assumptions=['element lifetime is observed by address (Elem registry); raw storage is junk-filled so reads of never-constructed slots are deterministic'],
     )
+
+# ---------------------------------------------------------------------------------------------- C15
+add('C15',
+    level='exploration',
+    rule='strings/views vs std::string: exhaustive unary + pairwise batteries over {a,b,NUL}^<=4, random strings to length 300 incl. NULs and high-bit chars, random op sequences, to_number of fitting digit strings; sources in exact-size guarded buffers',
+    jobs=[job('strings', 'c15_strings.cpp', args=['--arg', 'prop=C15'], shards={'quick': 8, 'thorough': 16}, hang_is_violation=True)],
+    min_evaluations={'quick': 15000, 'thorough': 300000},
+    min_counters={'unary_cases': 100, 'binary_cases': 10000, 'to_number_cases': 1000, 'sequence_cases': 1000},
+    assumptions=['std::string is the executable reference; compare() is checked against the documented length-first order',
+                 'ASan red zones around exact-size source buffers and exact-size owned blocks observe over-reads'],
+    )
+C16_JOBS.append(job('strings', 'c15_strings.cpp', args=['--arg', 'prop=C16'], shards={'quick': 4, 'thorough': 8}, hang_is_violation=True))
